@@ -348,6 +348,72 @@ def r3(ctx: Ctx):
   ctx.floor(rule, 4)
 
 
+def _apply_mask_modes(ctx, rule, ap):
+  """The two modes of a boolean row mask over an array column select along the SAME (leading) axis."""
+  items_p, = [p for p in ap.params() if p == 'items'] or [ap.params()[0]]
+  a = ap.node.args
+  kw = [x.arg for x in a.kwonlyargs] + [x.arg for x in a.args]
+  mask_p = next((x for x in kw if 'mask' in x), None)
+  rep_p = next((x for x in kw if 'replace' in x), None)
+  if mask_p is None or rep_p is None:
+    raise AnalysisError('apply_mask: mask / replace parameters not found')
+  ifs = [x for x in ast.walk(ap.node) if isinstance(x, ast.If) and isinstance(x.test, ast.Compare) and len(x.test.ops) == 1
+         and {unparse(x.test.left), unparse(x.test.comparators[0])} == {rep_p, 'DEFAULT_FILTER'}
+         and any(isinstance(r, ast.Return) for b in x.body + x.orelse for r in ast.walk(b))]
+  if not ifs:
+    raise AnalysisError('apply_mask: the replace-or-filter decision of the boolean-mask branch was not found')
+  what = 'apply_mask: replace mode and filter mode both apply the row mask along the leading axis'
+  for node in ifs:
+    replacing_first = isinstance(node.test.ops[0], (ast.NotEq, ast.IsNot))
+    rep_body, flt_body = (node.body, node.orelse) if replacing_first else (node.orelse, node.body)
+
+    def resolve(body):
+      env = {}
+      def sub(e):
+        class _S(ast.NodeTransformer):
+          def visit_Name(self, nm):
+            return env.get(nm.id, nm) if isinstance(nm.ctx, ast.Load) else nm
+        import copy as _c
+        return _S().visit(_c.deepcopy(e))
+      rets = []
+      for st in body:
+        if isinstance(st, ast.Assign) and len(st.targets) == 1 and isinstance(st.targets[0], ast.Name):
+          env[st.targets[0].id] = sub(st.value)
+        elif isinstance(st, ast.Return) and st.value is not None:
+          rets.append((st, sub(st.value)))
+      return rets
+
+    problem = None
+    rep = resolve(rep_body)
+    flt = resolve(flt_body)
+    if not rep or not flt:
+      problem = 'one of the two modes no longer returns the masked column'
+    for st, v in rep:
+      if not (isinstance(v, ast.Call) and unparse(v.func) in ('np.where', 'numpy.where') and len(v.args) == 3):
+        problem = problem or f'replace mode returns `{unparse(st.value)[:50]}`, not np.where(mask, items, value)'
+        continue
+      c_, i_, r_ = v.args
+      if unparse(r_) != rep_p or unparse(i_) not in (items_p, f'np.asarray({items_p})'):
+        problem = problem or 'np.where does not choose between the items and the replacement value'
+      ctext = unparse(c_)
+      if mask_p not in {y.id for y in ast.walk(c_) if isinstance(y, ast.Name)}:
+        problem = problem or 'the condition of np.where is not the mask'
+      elif not (any(k in ctext for k in ('reshape', 'expand_dims', 'newaxis', 'None]', '[..., None')) and (
+          'ndim' in ctext or 'shape' in ctext)):
+        problem = problem or (
+            f'the condition of np.where is the bare row mask `{ctext[:40]}`: np.where broadcasts a 1-D mask of n rows against the'
+            ' LAST axis of the column, while the filter mode `items[masks]` selects along the first — for a 2-D column the'
+            ' replace mode masks feature columns (or raises a broadcast error): a sliced aggregate with'
+            ' replace_mask_false_with reports values of the wrong rows. Extend the mask to the rank of the items first')
+    for st, v in flt:
+      if not (isinstance(v, ast.Subscript) and unparse(v.slice) == mask_p and unparse(v.value) in (items_p, f'np.asarray({items_p})')):
+        problem = problem or f'filter mode returns `{unparse(st.value)[:50]}`, not items[mask]'
+    if problem:
+      ctx.fail(rule, ap, what, problem, node=node)
+    else:
+      ctx.ok(rule, ap, what, node)
+
+
 def r4(ctx: Ctx):
   rule = 'R-C02-4'
   ctx.rule(rule, 'mask application and reporting: masks are applied to the'
@@ -378,18 +444,7 @@ def r4(ctx: Ctx):
              f'mask broadcasting changed (single: {one}, strict zip: {many},'
              f' replace forwarded: {rep})', node=am.node)
   ap = repo.func(TT, 'apply_mask')
-  g = cfgm.cfg_of(ap.node)
-  where = [n for n in g.nodes if isinstance(n.ast, ast.Return) and 'np.where(masks, items, replace_false_with)' in unparse(n.ast)]
-  index = [n for n in g.nodes if isinstance(n.ast, ast.Return) and 'np.asarray(items)[masks]' in unparse(n.ast)]
-  cond = [c for c in g.nodes if c.kind == 'cond' and unparse(c.ast) == 'replace_false_with != DEFAULT_FILTER']
-  ok = where and index and cond and any(where[0] in [s for s, lab in c.succ if lab == 'true'] for c in cond) and any(
-      index[0] in [s for s, lab in c.succ if lab == 'false'] for c in cond)
-  if ok:
-    ctx.ok(rule, ap, 'boolean mask: replace -> np.where, filter -> indexing', where[0].ast)
-  else:
-    ctx.fail(rule, ap, 'apply_mask: np.where(masks, items, replace) if replacing else np.asarray(items)[masks]',
-             'a boolean row mask no longer filters rows (or replaces masked'
-             ' values) as configured', node=ap.node)
+  _apply_mask_modes(ctx, rule, ap)
   eff = Effects(repo)
   if eff.mutations(ap, {'items': DIRECT}):
     ctx.fail(rule, ap, 'apply_mask leaves items untouched', 'apply_mask mutates the batch it masks', node=ap.node)
@@ -782,6 +837,12 @@ from mlmverif.selfcheck import B, OK  # noqa: E402
 _T = 'chainables/transform.py'
 _F = 'chainables/tree_fns.py'
 VARIANTS = [
+    B('revert-replace-mode-bare-row-mask', 'chainables/tree.py',
+      "        items = np.asarray(items)\n        # The mask selects along the leading dimensions as `items[masks]` does:\n        # np.where alone would broadcast it against the trailing ones.\n        masks = np.reshape(\n            masks, masks.shape + (1,) * (items.ndim - masks.ndim)\n        )\n        return np.where(masks, items, replace_false_with)",
+      "        return np.where(masks, items, replace_false_with)", 'R-C02-4'),
+    OK('replace-mode-expands-the-mask-inline', 'chainables/tree.py',
+       "        masks = np.reshape(\n            masks, masks.shape + (1,) * (items.ndim - masks.ndim)\n        )\n        return np.where(masks, items, replace_false_with)",
+       "        return np.where(np.reshape(masks, masks.shape + (1,) * (items.ndim - masks.ndim)), items, replace_false_with)"),
     B('integer-masks-take-the-boolean-path', 'chainables/tree.py',
       "    if hasattr(masks, '__array__') and getattr(masks, 'dtype') == bool:", "    if hasattr(masks, '__array__') and getattr(masks, 'dtype') != object:", 'R-C02-13'),
     OK('bool-dtype-test-via-numpy-name', 'chainables/tree.py',
@@ -845,8 +906,8 @@ VARIANTS = [
     B('masks-not-zipped-strictly', _F, '        for item, mask in zip(items, self.masks, strict=True):',
       '        for item, mask in zip(items, self.masks):', 'R-C02-4'),
     B('filter-and-replace-swapped', 'chainables/tree.py',
-      '      if replace_false_with != DEFAULT_FILTER:\n        return np.where(masks, items, replace_false_with)\n      else:\n        return np.asarray(items)[masks]',
-      '      if replace_false_with == DEFAULT_FILTER:\n        return np.where(masks, items, replace_false_with)\n      else:\n        return np.asarray(items)[masks]',
+      "    if hasattr(masks, '__array__') and getattr(masks, 'dtype') == bool:\n      if replace_false_with != DEFAULT_FILTER:",
+      "    if hasattr(masks, '__array__') and getattr(masks, 'dtype') == bool:\n      if replace_false_with == DEFAULT_FILTER:",
       'R-C02-4'),
     B('result-skips-empty-slices', _T,
       '      outputs = self.agg_fns[key.metrics].get_result(fn_state)\n      flattened_keys = key.metrics',
